@@ -1,4 +1,5 @@
 import OrsoVerif.Lemmas.Validate
+import OrsoVerif.Lemmas.Family
 /-!
 # C05 — Validation accepts exactly conforming records; append is atomic
 
@@ -23,6 +24,14 @@ nullable — also for untyped columns; a non-null value is reported exactly when
 theorem columnRule_spec (p n nl t i : Bool) :
     Gen.ValidateFlow.columnRule p n nl t i =
       if !p then [kMissing] else if n then (if nl then [] else [kNull]) else if t && !i then [kWrong] else [] := by
+  cases p <;> cases n <;> cases nl <;> cases t <;> cases i <;> rfl
+
+/-- The loop body never raises, whatever the record and the column: with Python's evaluation order (left to
+right, short-circuit) the source looks `data[column.name]` up only when the key is there and
+`ORSO_TO_PYTHON_MAP[column.type]` only for a typed column — for all 32 combinations of the atoms it returns
+what `columnRule` returns. -/
+theorem columnRule_never_raises (p n nl t i : Bool) :
+    Gen.ValidateFlow.columnRuleE p n nl t i = some (Gen.ValidateFlow.columnRule p n nl t i) := by
   cases p <;> cases n <;> cases nl <;> cases t <;> cases i <;> rfl
 
 /-- The top level of `validate`, as the source has it now: a non-mapping is refused first; excess keys
@@ -108,6 +117,15 @@ theorem validate_refines_spec (s : List Column) (r : Record) : validate s r = va
       have h3 := Classical.not_not.mp (fun h => he (hany.mpr h))
       rw [hf]; simp only [hx, h3, ne_eq, not_true_eq_false, decide_false, Bool.false_eq_true, and_self, ↓reduceIte]
   · simp [hx]
+
+/-- Which exception carries the offending columns: both validation errors are `DataError`s, the excess-keys
+error keeps the set of excess keys it is given under `.columns`, the validation error keeps the dict of lists it
+is given under `.errors` — as given, not a copy or a digest of it. -/
+theorem error_carriers :
+    (∀ p ∈ Gen.AppendFlow.errorBases, "DataError" ∈ p.2)
+    ∧ (Gen.AppendFlow.errorBases.map (·.1)) = ["DataValidationError", "ExcessColumnsInDataError"]
+    ∧ ("DataValidationError", "errors", "errors") ∈ Gen.AppendFlow.errorStores
+    ∧ ("ExcessColumnsInDataError", "columns", "columns") ∈ Gen.AppendFlow.errorStores := by decide
 
 /-! ## 2. validation: acceptance and error content -/
 
@@ -202,6 +220,12 @@ theorem append_spec (s : List Column) (rows : List (List Value)) (r : Record) (z
       else (rows, .rejected (validate s r)) := by
   by_cases h : validate s r = .ok <;> cases z <;>
     simp [append, Gen.ValidateFlow.appendSteps, runSteps, h]
+
+/-- A frame created from a generator of rows (or by `from_arrow`) holds no list yet: `append` makes it one
+before anything is stored — and stores exactly once. -/
+theorem append_materialises_before_storing :
+    Gen.ValidateFlow.appendSteps.idxOf .materialize < Gen.ValidateFlow.appendSteps.idxOf .store
+    ∧ Gen.ValidateFlow.appendSteps.count .store = 1 ∧ Gen.ValidateFlow.appendSteps.count .validate = 1 := by decide
 
 /-- An accepted record adds exactly one row, with the values in column order. -/
 theorem append_ok (s : List Column) (rows : List (List Value)) (r : Record) (h : validate s r = .ok) :
@@ -393,6 +417,175 @@ theorem table_facts_subclasses :
     ∧ isInstance "frozenset" "ARRAY" = false ∧ isInstance "np.ndarray" "ARRAY" = false
     ∧ isInstance "bytes" "JSONB" = true ∧ isInstance "dict" "JSONB" = false := by decide
 
+/-! ## 6. the record *object*: dict, any other mapping, anything else -/
+
+/-- The three type tests of the source — the one that lets an object into `validate`, the one under which
+`append` copies it into a plain dict first, the one under which the row factory reads it by key — fit together,
+for every object CPython can make (exact dict ⊆ dict ⊆ MutableMapping ⊆ Mapping):
+whatever `validate` lets in after the copy is read by key (never iterated, which would store a mapping's *keys*);
+every mutable mapping is let in, an object that is no mapping never is; `append` copies only what `validate`
+would let in anyway, so the copy does not change the verdict. -/
+theorem record_objects (d e m p : Bool) (h : Kind.wf ⟨d, e, m, p⟩ = true) :
+    (guardAccepts (afterCoerce ⟨d, e, m, p⟩) = true → rowReads (afterCoerce ⟨d, e, m, p⟩) = true)
+    ∧ (m = true → guardAccepts ⟨d, e, m, p⟩ = true)
+    ∧ (p = false → guardAccepts ⟨d, e, m, p⟩ = false)
+    ∧ (coerces ⟨d, e, m, p⟩ = true → guardAccepts ⟨d, e, m, p⟩ = true)
+    ∧ guardAccepts (afterCoerce ⟨d, e, m, p⟩) = guardAccepts ⟨d, e, m, p⟩ := by
+  revert h
+  cases d <;> cases e <;> cases m <;> cases p <;> decide
+
+/-- `validate` on any object: the statement's verdict when the object passes the type test, a `TypeError`
+otherwise — nothing in between. -/
+theorem validateK_spec (k : Kind) (s : List Column) (r : Record) :
+    validateK k s r = if guardAccepts k then validate s r else .other := by
+  unfold validateK validate
+  cases guardAccepts k
+  · simp [(top_spec _ _).2]
+  · simp
+
+/-- No exception escapes the per-column loop: `validate` with evaluation errors is `validate`. -/
+theorem validateKE_eq (k : Kind) (s : List Column) (r : Record) : validateKE k s r = validateK k s r := by
+  have : (s.any fun c => (ruleOfE r c).isNone) = false := by
+    simp [ruleOfE, columnRule_never_raises]
+  simp [validateKE, this]
+
+/-- **`append` of any object**: exactly `append` of the record it stands for when `validate` lets the object in,
+otherwise refused with the rows unchanged.  In particular nothing but `rowOf` — the values in column order — is
+ever stored. -/
+theorem appendK_spec (s : List Column) (rows : List (List Value)) (k : Kind) (hk : k.wf = true) (r : Record) (z : Bool) :
+    appendK s rows k r z = if guardAccepts k then append s rows r z else (rows, .rejected .other) := by
+  obtain ⟨d, e, m, p⟩ := k
+  obtain ⟨h1, _, _, _, h5⟩ := record_objects d e m p hk
+  rw [append_spec]
+  simp only [appendK, Gen.ValidateFlow.appendSteps, runStepsK, validateK_spec, h5]
+  cases hg : guardAccepts ⟨d, e, m, p⟩
+  · simp
+  · have hr := h1 (h5 ▸ hg)
+    by_cases hv : validate s r = .ok <;> cases z <;> simp [hv, hr]
+
+/-- A mutable mapping of any class is appended exactly like the plain dict with the same items. -/
+theorem appendK_mutable (s : List Column) (rows : List (List Value)) (k : Kind) (hk : k.wf = true)
+    (hm : k.isMutableMapping = true) (r : Record) (z : Bool) : appendK s rows k r z = append s rows r z := by
+  obtain ⟨d, e, m, p⟩ := k
+  rw [appendK_spec s rows _ hk, (record_objects d e m p hk).2.1 hm]; rfl
+
+/-- Whatever the object: when `append` returns, `validate` accepts the same object, exactly one row was added
+and it holds the values in column order; when it raises, the rows are as before. -/
+theorem appendK_safe (s : List Column) (rows : List (List Value)) (k : Kind) (hk : k.wf = true) (r : Record) (z : Bool) :
+    ((appendK s rows k r z).2 = .ok →
+        (appendK s rows k r z).1 = rows ++ [rowOf s r] ∧ validateK k s r = .ok ∧ Conforms s r ∧ z = true)
+    ∧ ((appendK s rows k r z).2 ≠ .ok → (appendK s rows k r z).1 = rows) := by
+  rw [appendK_spec s rows k hk, validateK_spec]
+  cases hg : guardAccepts k
+  · simp
+  · simp only [if_true]
+    refine ⟨fun h => ?_, fun h => (append_rejected_unchanged s rows r z h).1⟩
+    obtain ⟨hv, hz⟩ := (append_ok_iff s rows r z).mp h
+    subst hz
+    exact ⟨(append_ok s rows r hv).1 ▸ rfl, hv, (validate_ok_iff s r).mp hv, rfl⟩
+
+/-- The appends of a history of arbitrary objects that are accepted. -/
+def acceptedK (s : List Column) (l : List (Kind × Record × Bool)) : List (Kind × Record × Bool) :=
+  l.filter fun p => guardAccepts p.1 && decide (validate s p.2.1 = .ok) && p.2.2
+
+/-- After any sequence of appends of arbitrary objects the frame holds its original rows followed by exactly
+the rows of the accepted ones, in order; every stored row conforms when the original ones did. -/
+theorem appendsK_invariant (s : List Column) (l : List (Kind × Record × Bool)) (hl : ∀ p ∈ l, p.1.wf = true) :
+    ∀ rows, appendsK s rows l = rows ++ (acceptedK s l).map (fun p => rowOf s p.2.1)
+      ∧ ((∀ row ∈ rows, rowConforms s row = true) → ∀ row ∈ appendsK s rows l, rowConforms s row = true) := by
+  induction l with
+  | nil => intro rows; simp [appendsK, acceptedK]
+  | cons q l ih =>
+    obtain ⟨k, r, z⟩ := q
+    intro rows
+    have hk : k.wf = true := hl (k, r, z) List.mem_cons_self
+    have ih' := ih (fun p hp => hl p (List.mem_cons_of_mem _ hp))
+    have hsafe := appendK_safe s rows k hk r z
+    have hspec := appendK_spec s rows k hk r z
+    by_cases hok : (appendK s rows k r z).2 = .ok
+    · obtain ⟨h1, h2, h3, h4⟩ := hsafe.1 hok
+      subst h4
+      rw [validateK_spec] at h2
+      have hg : guardAccepts k = true := by
+        cases hg : guardAccepts k
+        · simp [hg] at h2
+        · rfl
+      have hv : validate s r = .ok := by simpa [hg] using h2
+      obtain ⟨ih1, ih2⟩ := ih' (rows ++ [rowOf s r])
+      refine ⟨by simp [appendsK, h1, ih1, acceptedK, hg, hv], ?_⟩
+      intro hall row hrow
+      simp only [appendsK, h1] at hrow
+      apply ih2 _ row hrow
+      intro row' hr'
+      rcases List.mem_append.mp hr' with hr' | hr'
+      · exact hall row' hr'
+      · simp only [List.mem_singleton] at hr'; subst hr'; exact rowOf_conforms s r hv
+    · have h1 := hsafe.2 hok
+      have hf : (guardAccepts k && decide (validate s r = .ok) && z) = false := by
+        cases hg : guardAccepts k
+        · simp
+        · rw [hspec, hg] at hok
+          simp only [if_true] at hok
+          have := mt (append_ok_iff s rows r z).mpr hok
+          cases z <;> simp_all
+      obtain ⟨ih1, ih2⟩ := ih' rows
+      refine ⟨by simp [appendsK, h1, ih1, acceptedK, hf], ?_⟩
+      intro hall row hrow
+      simp only [appendsK, h1] at hrow
+      exact ih2 hall row hrow
+
+/-! ## 7. families of frames: every frame is a register of its own append history -/
+
+/-- **No method hands out the parent's own row list**: no `return` of `DataFrame.slice` (hence of `head` and
+`tail`) builds the new frame on `self._rows` itself, and `query`, `distinct`, `filter`, `take`, `to_batches`
+and `+` build theirs on a new list or on a generator over a snapshot — never on the parent's list, never on a
+generator that reads the parent's list later. -/
+theorem frames_own_their_rows :
+    Family.sharesSomewhere Gen.AppendFlow.sliceTree = false
+    ∧ ∀ p ∈ Gen.AppendFlow.derivedRows, p.2 = .fresh ∨ p.2 = .snapshot := by decide
+
+theorem no_sharing : Family.NoSharing := by
+  refine ⟨frames_own_their_rows.1, fun p hp => ?_⟩
+  rcases frames_own_their_rows.2 p hp with h | h <;> rw [h] <;> decide
+
+/-- **Refinement**: for every program of appends and derivations (slice, head, tail, query, distinct, filter,
+take, to_batches, +) the frames of the heap machine — where a frame is a pointer to a row list and `append`
+writes through it — show exactly what the register machine holds, in which every frame has rows of its own. -/
+theorem family_refines_registers (s : List Column) (st : Family.St) (h : Family.Inv st) (ops : List Family.FOp) :
+    (Family.runH s st ops).view = Family.runR s st.view ops :=
+  (Family.run_refines s no_sharing ops st h).1
+
+/-- **Every frame holds exactly its own history**: take any program, stop anywhere; a frame that exists then and
+shows `rows` shows, after the rest of the program, `rows` followed by exactly the records accepted by the
+appends that went to *it*, in order — whatever was appended to the frames it was derived from or that were
+derived from it. -/
+theorem family_frame_holds_its_own (s : List Column) (st : Family.St) (h : Family.Inv st) (pre post : List Family.FOp)
+    (hwf : ∀ op ∈ post, op.wf = true) (j : Nat) (rows : List Family.Row)
+    (hj : (Family.runH s st pre).view[j]? = some rows) :
+    (Family.runH s st (pre ++ post)).view[j]? =
+      some (rows ++ (acceptedK s (Family.appendsTo j post)).map (fun p => rowOf s p.2.1)) := by
+  rw [Family.runH_append]
+  obtain ⟨_, hinv⟩ := Family.run_refines s no_sharing pre st h
+  rw [(Family.run_refines s no_sharing post _ hinv).1, Family.runR_frame s j post _ rows hj,
+    (appendsK_invariant s _ (Family.appendsTo_wf j post hwf) rows).1]
+
+/-- An append to one frame changes no other frame. -/
+theorem family_append_is_local (s : List Column) (st : Family.St) (h : Family.Inv st) (i j : Nat) (hij : i ≠ j)
+    (k : Kind) (hk : k.wf = true) (r : Record) (z : Bool) :
+    (Family.stepH s st (.append i k r z)).view[j]? = st.view[j]? := by
+  cases hj : st.view[j]? with
+  | none =>
+    have := (Family.step_refines s no_sharing st h (.append i k r z)).1
+    rw [this]
+    simp only [Family.stepR]
+    cases hi : st.view[i]? with
+    | none => exact hj
+    | some rows_i =>
+      simp only [List.getElem?_set, hij, if_false]; exact hj
+  | some rows =>
+    have := family_frame_holds_its_own s st h [] [.append i k r z] (by simpa [Family.FOp.wf] using hk) j rows hj
+    simpa [Family.runH, Family.appendsTo, hij, acceptedK] using this
+
 /-- Non-vacuity: a record that breaks three rules at once, an accepted one, an excess key that hides two
 other offences, an alias that is an excess key; and a schema object whose verdict follows its mutations. -/
 example :
@@ -412,5 +605,26 @@ example :
                         ([("a", some "str"), ("c", some "int"), ("d", none)], false)]]
         = [.outcome (.excess ["d"]), .outcome .ok, .outcome (.excess ["b"]),
            .frame [[some "str", some "int", none]] [.rejected (.invalid [] [] ["a"]), .ok, .unsizable]] := by decide
+
+/-- Non-vacuity of parts 6 and 7: `head(5)` of a two-row frame is the whole of it on a list of its own, so an
+append to the parent leaves it alone; frames taken later start from what their parent holds then; a UserDict is
+appended like the dict it stands for, a read-only mapping is refused by `validate` and by `append` alike. -/
+
+example :
+    let s : List Column := [⟨"a", some "INTEGER", false, []⟩, ⟨"b", some "VARCHAR", true, []⟩]
+    let good : Record := [("b", some "str"), ("a", some "int")]
+    let st0 : Family.St := ⟨[[[some "int", some "str"], [some "int", none]]], [0]⟩
+    let proxy : Kind := ⟨false, false, false, true⟩
+    let userDict : Kind := ⟨false, false, true, true⟩
+    -- head(5) of a two-row frame is the whole of it, on a list of its own: an append to the parent leaves it alone
+    (Family.runH s st0 [.derive 0 (.head 5), .append 0 Kind.dict good true, .derive 0 (.tail 1), .append 1 userDict good true,
+                 .append 2 proxy good true, .derive 1 (.slice (-1) none)]).view
+      = [[[some "int", some "str"], [some "int", none], [some "int", some "str"]],
+         [[some "int", some "str"], [some "int", none], [some "int", some "str"]],
+         [[some "int", some "str"]],
+         [[some "int", some "str"]]]
+    ∧ (appendK s [] proxy good true) = ([], .rejected .other)
+    ∧ (appendK s [] userDict good true) = ([[some "int", some "str"]], .ok)
+    ∧ validateK proxy s good = .other := by decide
 
 end C05
